@@ -142,6 +142,9 @@ func (p *PathRun) pickNext(cur *Thread, mustSwitch bool) *Thread {
 		p.failHere("deadlock", "all goroutines are asleep - deadlock: "+desc, desc)
 		panic(&pathAbort{"deadlock"})
 	}
+	if p.por {
+		return p.pickNextPOR(cur, en)
+	}
 	curEnabled := !mustSwitch && cur.enabled()
 	if len(en) == 1 {
 		return en[0]
@@ -178,6 +181,9 @@ func (p *PathRun) ChooseFree(n int) int {
 // yield is called at visible operations. blocked != nil: the thread cannot continue until it holds.
 func (th *Thread) yield(blocked func() bool) {
 	p := th.p
+	th.pendKeys = th.opKeys
+	th.pendGlobal = th.opKeys == nil
+	th.opKeys = nil
 	if len(p.threads) == 1 {
 		if blocked != nil && !blocked() {
 			th.blocked = blocked
@@ -248,6 +254,7 @@ func (th *Thread) chanSend(fr *Frame, chv Value, val Value) {
 		return
 	}
 	if c.Cap > 0 {
+		th.opKeys = []interface{}{c}
 		th.yield(func() bool { return c.Closed || len(c.Buf) < c.Cap })
 		if c.Closed {
 			th.goPanic("send on closed channel")
@@ -256,12 +263,14 @@ func (th *Thread) chanSend(fr *Frame, chv Value, val Value) {
 		return
 	}
 	// unbuffered: offer the value, wait until taken
+	th.opKeys = []interface{}{c}
 	th.yield(nil)
 	if c.Closed {
 		th.goPanic("send on closed channel")
 	}
 	req := &sendReq{val: val, th: th}
 	c.SendQ = append(c.SendQ, req)
+	th.opKeys = []interface{}{c}
 	th.yield(func() bool { return req.taken || c.Closed })
 	if !req.taken {
 		// closed while sending
@@ -300,6 +309,7 @@ func (th *Thread) chanRecv(fr *Frame, chv Value, commaOk bool, resT types.Type) 
 		et = resT
 	}
 	c.RecvWaiting++
+	th.opKeys = []interface{}{c}
 	th.yield(func() bool { return c.canRecv() })
 	c.RecvWaiting--
 	v, ok := th.doRecv(c, ctx.zero(et))
@@ -314,6 +324,7 @@ func (th *Thread) chanClose(fr *Frame, chv Value) {
 	if c == nil {
 		th.goPanic("close of nil channel")
 	}
+	th.opKeys = []interface{}{c}
 	th.yield(nil)
 	if c.Closed {
 		th.goPanic("close of closed channel")
@@ -353,6 +364,13 @@ func (th *Thread) selectOp(fr *Frame, i *ssa.Select) Value {
 			s.c.RecvWaiting++
 		}
 	}
+	selKeys := make([]interface{}, 0, len(states))
+	for _, s := range states {
+		if s.c != nil {
+			selKeys = append(selKeys, s.c)
+		}
+	}
+	th.opKeys = selKeys
 	if i.Blocking {
 		th.yield(func() bool { return len(ready()) > 0 })
 	} else {
